@@ -237,7 +237,8 @@ def main(argv):
             for h, r in res.items():
                 unexplained = [f for f in r["failed"]
                                if not any(k["harness"] == h and k["check"] in f["description"] for k in known)]
-                if unexplained and g.get("playback", True):
+                import replay_native
+                if unexplained and g.get("playback", True) and replay_native.needs_values(h):
                     r["playback"] = extract_playback(scratch, r["id"], extra, timeout_s, g.get("mem_gb", 20), cfgs=g.get("cfgs", ()))
         finally:
             if not args.keep:
